@@ -451,7 +451,78 @@ func (c *Ctx) c07MeshCase(oob bool) {
 	}
 }
 
+// large cases with tagged (triangle-dependent, non-zero) values: sizes that cross plausible internal block /
+// buffer boundaries (4096 records, 4096-byte and 64 KiB offsets)
+func (c *Ctx) c07BigCase(n int, withNormals bool) {
+	c.Note(fmt.Sprintf("big.n=%d", n))
+	const nv = 211
+	pos := make([]vector3.Float64, nv)
+	nrm := make([]vector3.Float64, nv)
+	for v := range pos {
+		pos[v] = vector3.New(float64(v+1), float64(v+1)*0.5, -float64(v+1)-0.25)
+		nrm[v] = vector3.New(float64(v%7+1), float64(v%5)-2, float64(v%3)+0.5)
+	}
+	idx := make([]int, 3*n)
+	for i := 0; i < n; i++ {
+		idx[3*i], idx[3*i+1], idx[3*i+2] = i%nv, (i*7+1)%nv, (i*13+2)%nv
+	}
+	m := modeling.NewTriangleMesh(idx).SetFloat3Attribute(modeling.PositionAttribute, pos)
+	if withNormals {
+		m = m.SetFloat3Attribute(modeling.NormalAttribute, nrm)
+	}
+	var buf bytes.Buffer
+	if err := stl.WriteMesh(&buf, m); err != nil {
+		c.Emit("c07.holds.size", fmt.Sprintf("%d -", n), "true")
+		return
+	}
+	bs := buf.Bytes()
+	c.Emit("c07.holds.size", fmt.Sprintf("%d %s", n, hx(bs)), "true")
+	c.Emit("c07.read", hx(bs), c07ReadAns(bs))
+	rans, back := c07ReadMeshAns(bs)
+	c.Emit("c07.readmesh", hx(bs), rans)
+	if back != nil {
+		c.Emit("c07.holds.roundtrip", c07Mesh(m)+" "+c07Mesh(*back), "true")
+	}
+	out := Guard(func() string {
+		b, err := stl.Read(bytes.NewReader(bs))
+		if err != nil {
+			return "err"
+		}
+		var o bytes.Buffer
+		if err := stl.Write(&o, *b); err != nil {
+			return "err"
+		}
+		return hx(o.Bytes())
+	})
+	c.Emit("c07.holds.reencode", hx(bs)+" "+out, "true")
+	// byte level: a binary with n tagged records
+	var b stl.Binary
+	b.Triangles = make([]stl.Triangle, n)
+	for i := range b.Triangles {
+		f := float32(i + 1)
+		b.Triangles[i] = stl.Triangle{Normal: stl.Vec{X: f, Y: 1, Z: -f}, Vertex1: stl.Vec{X: f + 0.5, Y: f, Z: 2}, Vertex2: stl.Vec{X: 3, Y: -f, Z: f},
+			Vertex3: stl.Vec{X: f, Y: f, Z: f}, Attribute: uint16(i%65535 + 1)}
+	}
+	var wb bytes.Buffer
+	if err := stl.Write(&wb, b); err == nil {
+		c.Emit("c07.write", c07Bin(b, false), hx(wb.Bytes()))
+		c.Emit("c07.read", hx(wb.Bytes()), c07ReadAns(wb.Bytes()))
+		if rb, err := stl.Read(bytes.NewReader(wb.Bytes())); err == nil {
+			c.Emit("c07.holds.rt", c07Bin(b, false)+" "+c07Bin(*rb, false), "true")
+		}
+	}
+}
+
 func runC07(c *Ctx) {
+	{
+		sizes := []int{81, 82, 1310, 1311, 4095, 4096, 4097, 8192}
+		if c.Tier == "thorough" {
+			sizes = append(sizes, 8193, 12288)
+		}
+		for k, n := range sizes {
+			c.c07BigCase(n, k%2 == 0)
+		}
+	}
 	// known finding, replayed on the real code every run: a mesh that stores no normals reads back with
 	// no normal attribute at all (ReadMesh only attaches normals if some record has a non-zero one)
 	{
